@@ -316,6 +316,7 @@ pub fn gen_ident(rng: &mut Rng) -> String {
             }
             6 => s.push_str(*rng.pick::<&str>(&[
                 "nil", "t", "quote", "lambda", "->x", "a.b", "x@y", "list->vector", "<=?", "!", "$a",
+                "inf", "-inf", "NaN", "nan", "-nan", "infinity", "-Infinity", "e", "E", "e1", "INF", "NIL", "Nil", "T", "True", "false",
                 "a:", ":a", "a:b", "::", ":", "nil:", "t:", "e1", "E", "x1+", "set!", "&rest",
             ])),
             _ => {
